@@ -264,7 +264,7 @@ impl Args {
                 Err(err) => match err {
                     // ... because test was skipped
                     ExecutionError::Skipped(idx) => {
-                        count_skipped += 1;
+                        count_skipped += testcases.len();
                         outcomes.extend(testcases.iter().map(|testcase| Outcome {
                             location: Some(test.path.display().to_string()),
                             testcase: (*testcase).clone(),
